@@ -309,6 +309,13 @@ def main():
     callers = [m9.group(1) for m9 in re.finditer(r"\n    (?:pub )?fn ([a-z_0-9]+)\s*[<(]", rdb)
                if "write_snapshot(" in (block_after(rdb, m9.start()) if True else "") and m9.group(1) != "write_snapshot"]
     serial = bool(lk) and 0 <= lk.start() < ws_call and sorted(set(callers)) == ["save"] and "drop(_" not in sv
+    gwt = fn_body(engine_all, "get_with_ttl") or ""
+    zcopy = bool(re.search(r"Value::SortedSet\(\s*\w+\s*\)\s*=>", gwt)) and "SkipList::new()" in gwt and "range_by_rank" in gwt \
+            and gwt.find("shard.read()") >= 0 and gwt.find("shard.read()") < gwt.find("SkipList::new()")
+    snap_reads = len(re.findall(r"storage\.(get_with_ttl|get|ttl|get_string|zrange|zrange_by_rank)\s*\(", fn_body(rdb, "write_snapshot") or ""))
+    out.append("(* engine.rs get_with_ttl copies the members of a (shared) sorted set while it holds the shard lock; write_snapshot\n   reads each key through exactly one storage call *)")
+    out.append("Definition engine_get_with_ttl_copies_zset : bool := %s." % ("true" if zcopy else "false"))
+    out.append("Definition rdb_snapshot_reads_per_key : Z := %d." % snap_reads)
     wsb = fn_body(rdb, "write_snapshot") or ""
     afresh = bool(re.search(r"\.create\(true\)", wsb)) and bool(re.search(r"\.truncate\(true\)", wsb)) and "create_new" not in wsb
     out.append("(* rdb.rs write_snapshot opens the temporary file with create(true) and truncate(true), never create_new: whatever a\n   dead process left under that name is overwritten *)")
